@@ -17,6 +17,9 @@ pub(crate) struct SymphoniaDecoder {
 	sample_rate: u32,
 	num_frames: usize,
 	track_id: u32,
+	/// Audio that was decoded while seeking. The next call to `decode`
+	/// hands it out before reading any further packets.
+	decoded_while_seeking: Option<Vec<Frame>>,
 }
 
 impl SymphoniaDecoder {
@@ -53,7 +56,55 @@ impl SymphoniaDecoder {
 			sample_rate,
 			num_frames,
 			track_id,
+			decoded_while_seeking: None,
 		})
+	}
+
+	/// Seeks the format reader to the packet containing `ts`, resets the
+	/// codec and decodes packets until one produces audio. Returns the
+	/// timestamp the format reader seeked to and, if there was a packet
+	/// that produced audio, the timestamp of its first frame.
+	fn seek_and_prime(&mut self, ts: u64) -> Result<(u64, Option<u64>), FromFileError> {
+		self.decoded_while_seeking = None;
+		let seeked_to = self.format_reader.seek(
+			SeekMode::Accurate,
+			SeekTo::TimeStamp {
+				ts,
+				track_id: self.track_id,
+			},
+		)?;
+		// the codec still holds state from before the seek. codecs like
+		// vorbis overlap every packet with the one before it, so audio
+		// decoded with stale state would be garbled
+		self.decoder.reset();
+		loop {
+			let packet = match self.format_reader.next_packet() {
+				Ok(packet) => packet,
+				Err(symphonia::core::errors::Error::IoError(err))
+					if err.kind() == std::io::ErrorKind::UnexpectedEof =>
+				{
+					// no packet after the seek position produces audio
+					return Ok((seeked_to.actual_ts, None));
+				}
+				Err(err) => return Err(err.into()),
+			};
+			if packet.track_id() != self.track_id {
+				continue;
+			}
+			let frames = match self.decoder.decode(&packet) {
+				Ok(buffer) => load_frames_from_buffer_ref(&buffer)?,
+				// the packet can't be decoded without what came before it
+				Err(symphonia::core::errors::Error::DecodeError(_)) => continue,
+				Err(err) => return Err(err.into()),
+			};
+			// right after a reset a codec may need a packet or two
+			// before it can produce audio again
+			if frames.is_empty() {
+				continue;
+			}
+			self.decoded_while_seeking = Some(frames);
+			return Ok((seeked_to.actual_ts, Some(packet.ts())));
+		}
 	}
 }
 
@@ -69,22 +120,38 @@ impl super::Decoder for SymphoniaDecoder {
 	}
 
 	fn decode(&mut self) -> Result<Vec<Frame>, Self::Error> {
+		if let Some(frames) = self.decoded_while_seeking.take() {
+			return Ok(frames);
+		}
 		let packet = self.format_reader.next_packet()?;
 		let buffer = self.decoder.decode(&packet)?;
 		load_frames_from_buffer_ref(&buffer)
 	}
 
 	fn seek(&mut self, index: usize) -> Result<usize, Self::Error> {
-		let seeked_to = self.format_reader.seek(
-			SeekMode::Accurate,
-			SeekTo::TimeStamp {
-				ts: index.try_into().expect("could not convert usize into u64"),
-				track_id: self.track_id,
-			},
-		)?;
-		Ok(seeked_to
-			.actual_ts
-			.try_into()
-			.expect("could not convert u64 into usize"))
+		let index: u64 = index.try_into().expect("could not convert usize into u64");
+		// the packets the codec needs to get going again after a seek
+		// don't produce audio, so the first frame we can actually decode
+		// may come after the one we want. in that case, start further
+		// back
+		let mut ts = index;
+		loop {
+			let (seeked_to, first_decoded) = self.seek_and_prime(ts)?;
+			match first_decoded {
+				Some(first_decoded) if first_decoded <= index || ts == 0 => {
+					return Ok(first_decoded
+						.try_into()
+						.expect("could not convert u64 into usize"));
+				}
+				None if ts == 0 => {
+					return Err(symphonia::core::errors::Error::IoError(
+						std::io::ErrorKind::UnexpectedEof.into(),
+					)
+					.into());
+				}
+				_ => {}
+			}
+			ts = seeked_to.min(ts).saturating_sub(1);
+		}
 	}
 }
